@@ -6,12 +6,13 @@ import XjsModel.Props.C12
   The ECMAScript grammar for the operator core of the subset is a precedence-stratified, left-associative grammar:
   LogicalOR < LogicalAND < Equality < Relational < Additive < Multiplicative < Unary < Postfix(Update). A text derives
   a tree exactly when every left operand of lower level and every right operand of lower OR EQUAL level stands in
-  parentheses (more parentheses are always allowed). `RT.SE.toks` is that rendering (trusted, two lines), with `grp`
+  parentheses (more parentheses are always allowed). `RTE.SE.toks` is that rendering (trusted, two lines), with `grp`
   for redundant parentheses.
 
   Proved here:
-    * COMPLETENESS for the operator core, for ALL trees (any depth / operator combination / redundant parentheses):
-      the rendering parses, in any mode, to exactly the tree it was rendered from (`RT.main`);
+    * COMPLETENESS for expressions without function / object literals (operators, calls, member access,
+      assignments, array literals), for ALL trees (any depth / combination / redundant parentheses):
+      the rendering parses, in any mode, to exactly the tree it was rendered from (`RTE.main`);
     * the binding powers order the operator tokens exactly as the ECMAScript levels do, equal levels for the
       operators of one production (table obligation, re-extracted from /repo on every run);
     * for EVERY accepted text, of the whole subset: the token sequence of the returned tree is the input token
@@ -21,7 +22,7 @@ import XjsModel.Props.C12
   Known findings there: restricted-production (D2), bare-cr (D10).
 -/
 namespace Xjs.C02
-open Xjs Xjs.RT
+open Xjs Xjs.RTE
 
 /-- the ECMAScript levels of the binary operator tokens, lowest first -/
 def ecmaLevels : List (List TokType) :=
@@ -38,7 +39,7 @@ theorem binding_powers_follow_ecmascript :
     precOf {} .increment = POSTFIX ∧ precOf {} .decrement = POSTFIX ∧
     precOf {} .lparen = CALL ∧ precOf {} .dot = MEMBER ∧ precOf {} .lbracket = MEMBER := by decide
 
-/-- COMPLETENESS (operator core): every tree, rendered with the parentheses the grammar requires (and any redundant
+/-- COMPLETENESS (expressions without function / object literals): every tree, rendered with the parentheses the grammar requires (and any redundant
     ones), is accepted and parsed to exactly that tree; the parser's mode flags play no role. -/
 theorem operator_core_parsed_as_rendered (cfg : PCfg) (hc : BaseCfg cfg) (s : SE) (hw : s.wf = true)
     (st : PS) (rest : List Token) (hr : rest ≠ []) (ht : st.toks = s.toks ++ rest) (hstop : stops cfg LOWEST rest) :
@@ -69,6 +70,9 @@ private def b := SE.atom (tk .ident [98])
 private def c := SE.atom (tk .ident [99])
 example : (SE.bin (tk .minus [45]) (SE.bin (tk .minus [45]) a b) c).toks.map (·.type) = [.ident, .minus, .ident, .minus, .ident] := by decide
 example : (SE.bin (tk .minus [45]) a (SE.bin (tk .minus [45]) b c)).toks.map (·.type) = [.ident, .minus, .lparen, .ident, .minus, .ident, .rparen] := by decide
+/-- assignment is right-associative: `a = b += c` is `a = (b += c)` and needs no parentheses -/
+example : (SE.asg (tk .assign [61]) a (SE.casg (tk .plusAssign [43, 61]) b c)).toks.map (·.type) = [.ident, .assign, .ident, .plusAssign, .ident] := by decide
+example : (SE.asg (tk .assign [61]) a (SE.casg (tk .plusAssign [43, 61]) b c)).wf = true := by decide
 
 end Xjs.C02
 
